@@ -72,6 +72,13 @@ func (ex *Exec) evalClause(st *State, fr *Frame, c *Clause, extra map[string]*Va
 
 func (ex *Exec) envFor(st *State, fr *Frame, extra map[string]*Val) *Env {
 	env := &Env{ex: ex, cur: st, old: ex.pre, vars: map[string]*Val{}, fr: fr}
+	if fr != nil {
+		for h, s0 := range ex.loopEntry {
+			if h.Parent() == fr.fn {
+				env.loopEntry = s0
+			}
+		}
+	}
 	if fr != nil && fr.fn.Pkg != nil {
 		env.pkg = fr.fn.Pkg.Pkg
 	} else if fr != nil && fr.fn.Origin() != nil && fr.fn.Origin().Pkg != nil {
@@ -477,6 +484,13 @@ func (env *Env) binop(e *Expr) *Val {
 	case "&&", "||", "==>", "<==>":
 		a := env.eval(e.Args[0])
 		env.wantBool(a)
+		// short-circuit on syntactically decided left operands (the right one may mention names not in scope on this path)
+		if (e.Name == "||" && a.T.Op == "true") || (e.Name == "==>" && a.T.Op == "false") {
+			return scalar(TTrue, boolT)
+		}
+		if e.Name == "&&" && a.T.Op == "false" {
+			return scalar(TFalse, boolT)
+		}
 		b := env.eval(e.Args[1])
 		env.wantBool(b)
 		switch e.Name {
@@ -695,6 +709,27 @@ func (env *Env) call(e *Expr) *Val {
 		n := *env
 		n.cur = env.old
 		return n.eval(e.Args[0])
+	case "iterstart":
+		if env.fr == nil || env.ex.iterStart == nil {
+			env.fail("iterstart() outside a loop clause")
+		}
+		var stt *State
+		for h, s0 := range env.ex.iterStart {
+			if h.Parent() == env.fr.fn {
+				stt = s0
+			}
+		}
+		if stt == nil {
+			env.fail("iterstart(): no loop iteration in progress")
+		}
+		n := *env
+		n.cur = stt
+		n.fr = stt.top()
+		return n.eval(e.Args[0])
+	case "chanFired":
+		a := env.eval(e.Args[0])
+		t := BVar("t", SInt)
+		return scalar(Exists([]*Term{t}, App("chanFired", SBool, recast(a.T, SRef), t)), boolT)
 	case "entry":
 		if env.loopEntry == nil {
 			env.fail("entry() outside a loop invariant")
